@@ -108,3 +108,23 @@ Print Assumptions C01_nonvacuous.
 
 (* accessor/constant table regenerated from the source: re-checked with this property *)
 From Traph Require AccessorFacts.
+
+(* ---- on the code translated from the source on every run (GenTrieD.v: LRUTrie.nodes_iter, count_pages,
+   count_crawled_pages - the linear scan of the blocks of the file, tail blocks included).  For EVERY history, on any
+   storage object holding the trie file of the state reached, the translated counters return the number of pages /
+   of crawled pages of the SPECIFICATION; the generated loop never runs out of fuel and never raises. *)
+From Traph Require GenTrieFacts GenTrieD GenTrieDCount StoreFacts2 TraceDefs GenStorage.
+Import GenTrieD GenTrieFacts GenStorage.
+Theorem C01_source_count_pages : forall d rs h, wf_rules rs -> Forall wf_op h ->
+  let s := run d rs h in let a := srun d rs h in
+  forall sg, trep (TraceDefs.files_of s) sg ->
+  (exists sg', py_trie_count_pages sg = Some (sg', N.of_nat (length (a_pages a))) /\ trep (TraceDefs.files_of s) sg') /\
+  (exists sg', py_trie_count_crawled_pages sg = Some (sg', count_if (fun x => snd x) (a_pages a)) /\ trep (TraceDefs.files_of s) sg').
+Proof.
+  intros d rs h H1 H2 s a sg Hrep.
+  pose proof (StoreFacts2.run_Inv18 d rs h H2) as Hinv. fold s in Hinv.
+  destruct (GenTrieDCount.py_trie_count_spec s Hinv sg Hrep) as [Hp Hc].
+  pose proof (C01_count_pages d rs h H1 H2) as E1. pose proof (C01_count_crawled d rs h H1 H2) as E2.
+  fold s a in E1, E2. rewrite E1 in Hp. rewrite E2 in Hc. split; assumption.
+Qed.
+Print Assumptions C01_source_count_pages.
